@@ -122,6 +122,9 @@ def run(ctx):
     cli(ctx)
     from .. import system
     system.run(ctx, 'C03')
+    # library sessions: edit / save / edit / save ... on one Game (Session.tla); what a save writes is the current cart
+    from .. import session
+    session.run(ctx, 'p8', nseq=(128 if ctx.quick else 1500), depth=10)
 
 
 def cli(ctx):
